@@ -67,6 +67,9 @@ func Profile(prop string, rng *prng.Rand, idx uint64) *GenCfg {
 	c.ScalarFlav[0]++ // never all zero
 	c.AliasP = pickF(rng, 0, 0.2, 0.6)
 	c.NP, c.NS, c.NE = 4+rng.Intn(5), 3+rng.Intn(4), 5+rng.Intn(4)
+	if prop != "C09" && prop != "C14" && prop != "C15" {
+		c.PRelatives = pickF(rng, 0, 0.03, 0.08)
+	}
 	switch prop {
 	case "C01":
 		c.Steps = 12 + rng.Intn(30)
